@@ -698,8 +698,78 @@ fn mode_c03long(args: &std::collections::HashMap<String, String>) -> Value {
             violations.push(json!({"sig": "stale-after-a-long-idle-stretch", "detail": format!("one reader called snapshot() {} times while nothing was published ({} of those answers were not the current record), then publication 2 completed and the writer went idle: {} of the next 300 calls did not return it", streak, bad, stale), "replay": ""}));
         }
     }
+    // A reader attached before the segment is re-initialised: the header of a published segment
+    // becomes unusable in place (another build of the daemon wiped it, an operator's tool zeroed
+    // it), the next daemon start takes the cold path (`wipe`) on the file the reader has mapped,
+    // and publishes. Serving the cache is allowed until the first new publication completes; from
+    // then on the attached reader must return what a fresh reader returns. Sequential: reader
+    // calls happen at quiescent points only.
+    let mut cold_restarts = 0u64;
+    {
+        use std::os::unix::fs::FileExt;
+        let damages: [(&str, u64, Vec<u8>); 6] = [
+            ("version and generation zeroed", 12, vec![0, 0, 0, 0]),
+            ("generation zeroed", 14, vec![0, 0]),
+            ("version zeroed", 12, vec![0, 0]),
+            ("first magic word overwritten", 0, vec![0x55, 0xAA, 0x55, 0xAA]),
+            ("declared size 71", 8, 71u32.to_ne_bytes().to_vec()),
+            ("whole header zeroed", 0, vec![0u8; 16]),
+        ];
+        for (di, (what, off, bytes)) in damages.iter().enumerate() {
+            for (gi, g0) in [2u16, 40000, 65532].iter().enumerate() {
+                if ((di * 3 + gi) as u64) % nshards != shard {
+                    continue;
+                }
+                let path = dir.join(format!("cold{}-{}", di, gi));
+                std::fs::write(&path, segment_bytes(1, *g0, 1)).unwrap();
+                let mut w1 = new_writer(&path);
+                w1.write(&encode(2));
+                let cpath = CString::new(path.to_str().unwrap()).unwrap();
+                let mut r = ShmReader::new(&cpath).unwrap();
+                let before = r.msnapshot().map(decode);
+                drop(w1);
+                {
+                    let f = std::fs::OpenOptions::new().write(true).open(&path).unwrap();
+                    f.write_at(bytes, *off).unwrap();
+                }
+                let during = r.msnapshot().map(decode);
+                let mut w2 = new_writer(&path);
+                let after_start = r.msnapshot().map(decode);
+                let mut bad = Vec::new();
+                for (stage, got) in [("before the damage", &before), ("with the damaged header", &during), ("after the daemon's restart, before its first publication", &after_start)] {
+                    if *got != Ok(Decoded::Publication(2)) {
+                        // nothing newer exists: the only complete record is publication 2 (errors are C14/C16's subject, an older or foreign record is not acceptable)
+                        if let Ok(Decoded::Publication(n)) = got {
+                            if *n != 2 {
+                                bad.push(format!("{}: returned publication {}", stage, n));
+                            }
+                        }
+                    }
+                }
+                for n in 3..=6u64 {
+                    w2.write(&encode(n));
+                    let got = r.msnapshot().map(decode);
+                    let fresh = ShmReader::new(&cpath).and_then(|mut fr| fr.msnapshot().map(decode));
+                    idle_calls += 1;
+                    if fresh != Ok(Decoded::Publication(n)) {
+                        bad.push(format!("a fresh reader returned {:?} after publication {}", fresh, n));
+                    }
+                    if got != Ok(Decoded::Publication(n)) {
+                        bad.push(format!("the attached reader returned {:?} after publication {} completed (writer idle, a fresh reader returned {:?})", got, n, fresh));
+                    }
+                }
+                evaluations += 1;
+                cold_restarts += 1;
+                if !bad.is_empty() {
+                    violations.push(json!({"sig": "stale-after-cold-restart", "detail": format!("reader attached at generation {}, header then damaged in place ({}), daemon restarted over it and published 3..6: {}", g0, what, bad.join("; ")), "replay": ""}));
+                }
+                drop(w2);
+                let _ = std::fs::remove_file(&path);
+            }
+        }
+    }
     let _ = std::fs::remove_dir_all(&dir);
-    json!({"evaluations": evaluations, "distinct": distinct.len(), "idle_calls": idle_calls, "idle_streaks": idle_streaks, "wrap_crossings": wrap_crossings, "exception_cases": exception_cases, "sparse_change_checks": sparse_checks, "violations": violations, "samples": samples})
+    json!({"evaluations": evaluations, "distinct": distinct.len(), "idle_calls": idle_calls, "idle_streaks": idle_streaks, "cold_restarts_with_attached_reader": cold_restarts, "wrap_crossings": wrap_crossings, "exception_cases": exception_cases, "sparse_change_checks": sparse_checks, "violations": violations, "samples": samples})
 }
 
 /// C18: the lock-step adversary (one complete update between the copy and the re-check of every
@@ -772,6 +842,73 @@ fn mode_c18cap(args: &std::collections::HashMap<String, String>) -> Value {
             samples.push(json!({"case": name, "retries_forced": retries.get(), "accesses": accesses.get(), "result": result}));
             drop(reader);
             drop(writer);
+        }
+    }
+
+    // (a3) The segment is re-initialised under a reader that is inside its copy: a restarted daemon
+    // found the header unusable and wiped the file in place (generation 0, version 0, zero body),
+    // then stalled or died before its first publication. The generation the reader meets at its
+    // re-check is 0 for ever; the call must still end (cache or error) after bounded work. Also a
+    // generation that is poked to other fixed values at the re-check and never changes again.
+    if shard == 0 {
+        use std::os::unix::fs::FileExt;
+        for after_word in [0usize, 3, 6] {
+            for (name, image) in [("wiped-mid-copy", segment_bytes(0, 0, 0)), ("wiped-version-kept", segment_bytes(1, 0, 0)), ("left-odd-mid-copy", segment_bytes(1, 5, 0)), ("other-even-mid-copy", segment_bytes(1, 40000, 0))] {
+                let path = dir.join("wipe");
+                std::fs::write(&path, segment_bytes(1, 2, 1)).unwrap();
+                let mut w = new_writer(&path);
+                let cpath = CString::new(path.to_str().unwrap()).unwrap();
+                let mut reader = ShmReader::new(&cpath).unwrap();
+                let _ = reader.msnapshot();
+                w.write(&encode(2));
+                drop(w);
+                let file = std::fs::OpenOptions::new().write(true).open(&path).unwrap();
+                let accesses = Rc::new(Cell::new(0u64));
+                let done = Rc::new(Cell::new(false));
+                {
+                    let (a, d) = (accesses.clone(), done.clone());
+                    set_handler(Some(Box::new(move |p: &Point| {
+                        if p.site == "load.pre" || p.site == "rword.pre" {
+                            a.set(a.get() + 1);
+                            if a.get() > ACCESS_BOUND + 10 {
+                                std::panic::panic_any("access bound exceeded");
+                            }
+                        }
+                        if p.site == "rword.post" && p.word == after_word && !d.get() {
+                            d.set(true);
+                            file.write_at(&image, 0).unwrap();
+                        }
+                    })));
+                }
+                let res = std::panic::catch_unwind(std::panic::AssertUnwindSafe(|| match reader.msnapshot() {
+                    Ok(c) => format!("{:?}", decode(c)),
+                    Err(e) => format!("Err({:?})", e),
+                }));
+                set_handler(None);
+                evaluations += 1;
+                max_accesses = max_accesses.max(accesses.get());
+                let case = format!("{}-after-word-{}", name, after_word);
+                match res {
+                    Ok(r) => {
+                        if r.starts_with("Err") {
+                            capped_calls += 1;
+                        }
+                        if !done.get() {
+                            violations.push(json!({"sig":"harness-wipe-point-not-reached","detail":format!("{}: the reader never copied word {}", case, after_word),"replay":""}));
+                        }
+                        if samples.len() < 12 {
+                            samples.push(json!({"case": case, "accesses": accesses.get(), "result": r}));
+                        }
+                    }
+                    Err(_) => {
+                        let rp = format!("{}/C18-cap-{}.json", replay_dir, case);
+                        vworld::write_json(&rp, &json!({"property":"C18","engine":"c18cap","case":case,"accesses":accesses.get()}));
+                        violations.push(json!({"sig":"unbounded-accesses","detail":format!("{}: the segment was re-initialised in place while the reader was copying and nothing was published afterwards; snapshot() exceeded {} shared accesses", case, ACCESS_BOUND),"replay":rp}));
+                    }
+                }
+                drop(reader);
+                let _ = std::fs::remove_file(&path);
+            }
         }
     }
 
